@@ -683,6 +683,14 @@ func (fv *FuncVC) run(fr *Frame, args []Val, freeVars []Val, st *State, guard st
 // order; when the function under verification gained or lost an un-annotated loop the numbers shift, and
 // verifyWithAliases retries with the order-preserving assignments of contract loops to code loops (loopRemap).
 func (fv *FuncVC) specOrdinal(fr *Frame, li *loopInfo) int {
+	if fv.helperLoops != nil && fr.fn != fv.fn {
+		if n, ok := fv.helperLoops[fmt.Sprintf("%s#%d", funcKey(fr.fn), li.ordinal)]; ok {
+			return n
+		}
+		if _, own := fv.v.contracts[fr.fn]; !own {
+			return -1
+		}
+	}
 	if fv.loopRemap != nil && fr.fn == fv.fn {
 		if n, ok := fv.loopRemap[li.ordinal]; ok {
 			return n
